@@ -98,6 +98,13 @@ CLAIMED["C17"] = {
     "technique": "contract-based deductive verification: variational transfer through a QP contract, poison-flag model of the NaN idiom, If-case-split over point/plane configurations",
 }
 
+CLAIMED["C12"] = {
+    "text": "hull_l1_scaling on the real code: out - baseline' == c (B - baseline') with one common factor c = amax/bmax > 0, the largest light-induced capture becomes min_j max_k A'_jk ub_k, caller's array untouched (relative and absolute capture, vector and matrix K). hull_dist_scaling verified MODULARLY against its callees' contracts (chromatic reduction and its inverse with a requested L1 from C16, per-sample boundary multiple from C17, ConvexHull facets): totals kept, all chromaticity offsets multiplied by one alpha = min_r alpha_r > 0, every scaled chromaticity satisfies every facet inequality (convexity lemma), zero rows stay zero, equal copy when already inside, early membership test in the same capture space; dichromat branch with the chromatic interval. in_hull(normalized=True): terminates for dichromats and equals interval membership, passes the right gamut points.",
+    "design_ref": "DESIGN.md section 6 C12",
+    "note": A_COMMON + " In hull_dist_scaling the callees barycentric_dim_reduction / cartesian_to_barycentric / alpha_for_B_with_P / in_hull are replaced by their contracts (verified under C16, C17, C03); ConvexHull is an assumed contract (facet inequalities hold for all input points, offsets negative when the origin is interior). nf 2-3 quick, up to 4 thorough.",
+    "technique": "contract-based deductive verification: modular proof against callee contracts (stubs), If-folded min/max, small NRA convexity lemmas",
+}
+
 NOT_APPLICABLE = {}
 
-FIX_COMMITS = ["b2d156a (np.trapz -> trapezoid)", "1caec1a (negative fit targets no longer declared positive cvxpy parameters)", "f3b37fa (batched_iteration bs > n)", "b98cd56 (poisson baseline tiling)", "d30d941 (minimize .copy())", "35d91a0 (minimize reshape order)", "b90b02d (minimize padded slack)", "7019c2d (excitation baseline)", "3901923 (excitation per-sample)", "b370f4e (adaptive default solver)", "cef6319 (gamut apex = capture at lb)"]
+FIX_COMMITS = ["b2d156a (np.trapz -> trapezoid)", "1caec1a (negative fit targets no longer declared positive cvxpy parameters)", "f3b37fa (batched_iteration bs > n)", "b98cd56 (poisson baseline tiling)", "d30d941 (minimize .copy())", "35d91a0 (minimize reshape order)", "b90b02d (minimize padded slack)", "7019c2d (excitation baseline)", "3901923 (excitation per-sample)", "b370f4e (adaptive default solver)", "cef6319 (gamut apex = capture at lb)", "f990a92 (hull_dist_scaling forwards relative)", "3b5a1c6 (dichromat chromatic membership)"]
